@@ -318,7 +318,7 @@ func cmdCheck(argv []string) {
 	for _, p := range sum.Problems {
 		if p.Outcome == "unsupported" {
 			nIncon++
-			lines = append(lines, fmt.Sprintf("INCONCLUSIVE property=%s %s: unsupported: %s", prop, p.Harness, p.Msg))
+			lines = append(lines, fmt.Sprintf("INCONCLUSIVE property=%s %s: unsupported: %s %v", prop, p.Harness, p.Msg, cleanNotes(p.Notes)))
 		}
 		for _, m := range p.Inconclusive {
 			nIncon++
